@@ -22,14 +22,14 @@ variable {K : Type} [Lean.Grind.Field K] [BEq K] [LawfulBEq K] [RPow K]
 /-- **inplace_equals_copy_numbers** (`convert_to_units` vs `in_units`/`to`, outside the EM branch):
     for every unit table, every pair of units, every value — a `convert_to_units` that returns
     leaves exactly the reading and the unit that `in_units` returns for the same request -/
-theorem convert_to_units_equals_in_units (N : NumpyFacts) (P : DtypeRules) (pre : Prefixes K) (t : Lut K)
+theorem convert_to_units_equals_in_units (fl : CtuFlags) (N : NumpyFacts) (P : DtypeRules) (pre : Prefixes K) (t : Lut K)
     (T : EmTable K) (a : Arr K) (tg : UnitV K) (x : K) (nm : Bool) (kern : String → K → K) (stored : K)
     (hem : checkEmTo pre t T a.unit tg = .ok none)
-    (h : (runSteps (convertToUnitsSteps N P pre t T a (.ok tg))).result = .ok ()) :
-    let r := after kern stored a x nm (runSteps (convertToUnitsSteps N P pre t T a (.ok tg)))
+    (h : (runSteps (convertToUnitsSteps fl N P pre t T a (.ok tg))).result = .ok ()) :
+    let r := after kern stored a x nm (runSteps (convertToUnitsSteps fl N P pre t T a (.ok tg)))
     inUnits pre t a.unit x tg = .ok (r.value, r.unit)
       ∧ convertToUnits pre t (x, a.unit) tg = .ok (r.value, r.unit) := by
-  obtain ⟨f, hf, hv, hu, _, _, _⟩ := convert_to_units_success N P pre t T a tg x nm kern stored h
+  obtain ⟨f, hf, hv, hu, _, _, _⟩ := convert_to_units_success fl N P pre t T a tg x nm kern stored h
   have hg : getConversionFactor pre t a.unit tg = .ok f := by
     unfold ctuPrelude at hf
     rw [hem] at hf
@@ -50,13 +50,13 @@ open Unyt.Generated in
     `convert_to_units` returns on data of any integer / float / complex dtype, the dtype it leaves
     is the dtype `in_units` gives its copy -/
 theorem convert_to_units_dtype_equals_in_units_dtype {K : Type} [Add K] [Sub K] [Mul K] [Div K] [OfNat K 0] [OfNat K 1]
-    [BEq K] [RPow K] (pre : Prefixes K) (t : Lut K)
+    [BEq K] [RPow K] (fl : CtuFlags) (pre : Prefixes K) (t : Lut K)
     (T : EmTable K) (a : Arr K) (tg : UnitV K) (x : K) (nm : Bool) (kern : String → K → K) (stored : K)
     (hd : a.dtype ∈ C17.scope)
-    (h : (runSteps (convertToUnitsSteps liveNumpy liveRules pre t T a (.ok tg))).result = .ok ()) :
+    (h : (runSteps (convertToUnitsSteps fl liveNumpy liveRules pre t T a (.ok tg))).result = .ok ()) :
     inUnitsDtype liveNumpy liveRules a.dtype
-      = .ok (after kern stored a x nm (runSteps (convertToUnitsSteps liveNumpy liveRules pre t T a (.ok tg)))).dtype := by
-  obtain ⟨f, _, _, _, _, _, hdt⟩ := convert_to_units_success liveNumpy liveRules pre t T a tg x nm kern stored h
+      = .ok (after kern stored a x nm (runSteps (convertToUnitsSteps fl liveNumpy liveRules pre t T a (.ok tg)))).dtype := by
+  obtain ⟨f, _, _, _, _, _, hdt⟩ := convert_to_units_success fl liveNumpy liveRules pre t T a tg x nm kern stored h
   have h17 := C17.routes_agree_dtype a.dtype hd
   rw [show C17.N = liveNumpy from rfl, show C17.P = liveRules from rfl, hdt] at h17
   cases hi : inUnitsDtype liveNumpy liveRules a.dtype with
